@@ -529,6 +529,15 @@ theorem selectMode_served_feasible (feas : (Int × Int) → Mode → Bool) (mode
   obtain ⟨hp, _, _, hf, _⟩ := selectMode_spec feas modes spacing m p h
   rw [hp]; exact hf
 
+/-- a request document is accepted iff its transceiver type is known and, when a mode is named, the mode exists,
+its baud rate does not exceed its min_spacing and the requested spacing is at least that min_spacing; otherwise the
+error kind is the stated one -/
+theorem requestCheck_spec (k g f : Bool) (baud ms sp : Int) :
+    (requestCheck k g f baud ms sp = none ↔ k = true ∧ (g = true → f = true ∧ baud ≤ ms ∧ ms ≤ sp)) ∧
+    (requestCheck k g f baud ms sp = some "ServiceError" ↔ k = true ∧ g = true ∧ f = true ∧ baud ≤ ms ∧ sp < ms) := by
+  unfold requestCheck
+  cases k <;> cases g <;> cases f <;> simp <;> (try split) <;> (try split) <;> simp_all <;> omega
+
 /-! ### finding F9 (fixed in /repo as 5d202380): the loop as it was does not satisfy `selectMode_spec` -/
 
 def f9A : Mode := { id := 0, baud := 32, bitRate := 200, minSpacing := 50, offset := 0 }
